@@ -15,7 +15,8 @@
 (* caller abandons the iterator: GeneratorExit at the current yield;       *)
 (* `finally` blocks run, plain statements after the yield do not).         *)
 (* Between reads: Params look-ups, Pickle (what a multi-process experiment *)
-(* does to an environment the user has peeked at).                         *)
+(* does to an environment the user has peeked at), and (Others) complete   *)
+(* reads of other environment objects living in the same process.          *)
 (*                                                                         *)
 (* Invariants: every read yields a prefix of the reference sequence and a  *)
 (* finished read yields all of it; every read starts with the filter       *)
@@ -41,7 +42,11 @@ CONSTANTS N, Slice, MaxOps,
                                   \*   "plain"   stored on the object, put back by a plain statement (the pinned tree)
           DropKillsIter,          \* deliberately broken Cache: abandoning a read discards the saved iterator (guard)
           BatchSet,               \* batch sizes of save() to explore ({} = histories without save(), the original model)
-          AliasBatches            \* deliberately broken save(): the collected full batches are one reused buffer (guard)
+          AliasBatches,           \* deliberately broken save(): the collected full batches are one reused buffer (guard)
+          Others,                 \* the history may contain complete reads of OTHER environment objects (built through the same
+                                  \*   public constructors, with other arguments) between the steps on this one
+          SharedDefault           \* deliberately broken constructor: an argument left at its default is ONE object shared by every
+                                  \*   environment built that way, and a read of another environment rewrites it (guard)
 Source == [i \in 1..N |-> i]
 VARIABLES cache, cacheOn, itAlive, itpos,   \* pipes.Cache
           swapped,                         \* Shuffle: seed currently replaced
@@ -127,7 +132,14 @@ Params == /\ rpc = "none" /\ n < MaxOps /\ n' = n + 1 /\ hist' = Append(hist, [o
    only if the buffer is complete; the driver checks that pickling works at all) *)
 Pickle == /\ rpc = "none" /\ n < MaxOps /\ n' = n + 1 /\ hist' = Append(hist, [op |-> "pickle", k |-> 0])
           /\ UNCHANGED <<cache, cacheOn, itAlive, itpos, swapped, rpc, mode, ci, cur, out, startOK, batch, saving, saved, disk>>
-Next == Open \/ Save \/ Next1 \/ Drop \/ Params \/ Pickle
+(* another environment object is built and read completely.  Objects are independent: nothing this object holds - buffer, saved
+   iterator, parameters - is touched (the property: "reading never modifies the data held by the source", and this object's reads
+   and params stay what they were).  Guard SharedDefault: the two objects hold one shared argument object which the other read
+   rewrites, so from here on this object no longer has the parameters it was built with (seen by its next read / params). *)
+Other == /\ Others /\ rpc = "none" /\ n < MaxOps /\ n' = n + 1 /\ hist' = Append(hist, [op |-> "other", k |-> 0])
+         /\ swapped' = (IF SharedDefault /\ ~saved THEN TRUE ELSE swapped)
+         /\ UNCHANGED <<cache, cacheOn, itAlive, itpos, rpc, mode, ci, cur, out, startOK, batch, saving, saved, disk>>
+Next == Open \/ Save \/ Next1 \/ Drop \/ Params \/ Pickle \/ Other
 Spec == Init /\ [][Next]_vars
 
 IsPrefix(a, b) == Len(a) <= Len(b) /\ \A i \in DOMAIN a : a[i] = b[i]
